@@ -64,6 +64,11 @@ class VLoop(base_events.BaseEventLoop):
 
     def turn(self):
         """One iteration of the event loop."""
+        if events._get_running_loop() is not self:
+            # several worlds may coexist (C19 drives two clients side by side): get_running_loop()
+            # must answer with the loop whose handles are running
+            events._set_running_loop(None)
+            events._set_running_loop(self)
         self.due()
         self.turns += 1
         for _ in range(len(self._ready)):
